@@ -1,17 +1,24 @@
 #!/bin/bash
-# usage: mkscratch.sh <name>  -> /tmp/ag_<name>/{repo,govc,bin,out}; prints the govc command line to use
+# usage: mkscratch.sh <name>  -> /tmp/ag_<name>/{repo,verif,bin,out,run.sh}
+#   repo  = git clone of /repo (HEAD, branch "work")       -- contract files are committed there by the agent
+#   verif = git clone of /verif (HEAD, branch "work")      -- engine at verif/govc, trusted specs at verif/govc/trusted
+# Both are clones (not worktrees) so that nothing an agent commits lands in /repo's or /verif's object store; the
+# results are merged with `git fetch /tmp/ag_<name>/verif work` / `git -C /repo fetch /tmp/ag_<name>/repo work`.
 set -e
 n=$1; d=/tmp/ag_$n
 rm -rf $d; mkdir -p $d/bin $d/out
-git -C /repo worktree prune
-git -C /repo worktree add --detach $d/repo HEAD >/dev/null 2>&1
-cp -r /verif/govc $d/govc
-(cd $d/govc && GOFLAGS=-mod=vendor GOPROXY=off GOSUMDB=off GOTOOLCHAIN=local go1.26.8 build -o $d/bin/govc .)
+git clone -q /repo $d/repo && git -C $d/repo checkout -q -b work
+git clone -q /verif $d/verif && git -C $d/verif checkout -q -b work
+git -C $d/repo config user.email agent@verif; git -C $d/repo config user.name "$n"
+git -C $d/verif config user.email agent@verif; git -C $d/verif config user.name "$n"
+ln -s $d/verif/govc $d/govc
+(cd $d/verif/govc && GOFLAGS=-mod=vendor GOPROXY=off GOSUMDB=off GOTOOLCHAIN=local go1.26.8 build -o $d/bin/govc .)
 cat > $d/run.sh <<EOS
 #!/bin/bash
 # rebuilds the scratch engine if its sources changed, then runs it on the scratch repo
-cd $d/govc && GOFLAGS=-mod=vendor GOPROXY=off GOSUMDB=off GOTOOLCHAIN=local go1.26.8 build -o $d/bin/govc . || exit 2
-exec $d/bin/govc -repo $d/repo -trusted $d/govc/trusted -out $d/out "\$@"
+cd $d/verif/govc && GOFLAGS=-mod=vendor GOPROXY=off GOSUMDB=off GOTOOLCHAIN=local go1.26.8 build -o $d/bin/govc . || exit 2
+if [ "\$1" = "check" ]; then shift; exec $d/bin/govc check "\$@" --repo $d/repo --verif $d/verif; fi
+exec $d/bin/govc -repo $d/repo -trusted $d/verif/govc/trusted -out $d/out "\$@"
 EOS
 chmod +x $d/run.sh
 echo $d
